@@ -2,25 +2,36 @@
 # tools/py2coq_denseonline.py [REPO_ROOT] OUT.v [--print-digests]
 # FAIL-CLOSED translator: the dense-time ONLINE operation classes
 #     rtamt/semantics/{stl,arithmetic,iastl}/dense_time/online/*_operation.py      ->  coq/theories/DenseOnlineGen.v
-# For every translated class X(AbstractDenseTimeOnlineOperation):
-#   Record X_state         one field per `self.f = ..` of __init__
-#   X_init                 the state __init__ builds
-#   gen_X_update           update(self, batch [, batch]) : X_state -> psig [-> psig] -> option (X_state * psig)   (None = the code raises)
-#   gen_X_reset            reset(self)                   : X_state -> option X_state
+# For every translated class X(AbstractDenseTimeOnlineOperation) (or X(Base) with Base a class translated before: the IA predicate):
+#   Record X_state         one field per `self.f = ..` of __init__ (`base` = the attributes of the base class)
+#   X_init                 the state __init__ builds, a function of the parameters of __init__ (INIT_PARAM_TYPES)
+#   gen_X_update           update(self [, batch [, batch]]) : X_state -> psig .. -> option (X_state * psig)   (None = the code raises)
+#   gen_X_sat              (predicate) sat(self, l, r)      : X_state -> psig -> psig -> option (X_state * list (T * bool))
+#   gen_X_reset            reset(self)                      : X_state -> option X_state
 # built only from the primitives of PySem.v / PyDense.v, by the scheme of tools/py2coq_offline.py (continuation style, option monad,
 # A-normal form, for = py_for over a state tuple, if = Coq if returning the tuple of assigned names), extended with
 #   * attributes: `self.f` is a variable self_f, read from the record at the start and written back at `return`; an attribute that
 #     __init__ does not create is local to one update (it has to be assigned before it is read);
 #   * types: int (Z), val (V), stamp (T), bool, sample (T*V: `[t, v]`; x[0] = fst, x[1] = snd), osample (option: [] or a sample,
-#     truthiness = is Some, o[k] = IndexError on []), sig (list of samples); the type of an attribute comes from FIELD_TYPES and every use is checked;
-#   * `and`/`or` short-circuit also when an operand may raise; `while` = py_while with the fuel  sum of len(x) for the len(x) of its condition;
-#   * `float("nan")` is an unusable value: a variable that may hold it cannot be read;
-#   * in-place mutation (append, pop(0), del l[i]) only of a list object this update created and has not aliased.
+#     truthiness = is Some, o[k] = IndexError on []), sig (list of samples), bsample / bsig (T*bool: the samples of sat()),
+#     piece (T*T*V: `(lo, hi, v)`) / pieces, xstamp (residual_start: -inf | a stamp | +inf), cmp / sem (members of the two enumerations,
+#     compared by .value / ==; the enumeration classes are pinned by digest), names (in_vars / out_vars: only their truth is used),
+#     obj:X (an object of a translated class: self.f.update(..) = gen_X_update on the record; Base.m(self, ..) = gen_Base_m on self.base);
+#     the type of an attribute comes from FIELD_TYPES / CLASS_FIELD_TYPES and every use is checked;
+#   * stamps: `t + n` = tadd t n, the literal 0 = tzero, float("inf") as a stamp = tinf: extra parameters of gen_X_update (only those it uses);
+#   * `and`/`or` short-circuit also when an operand may raise; a chained comparison a <= b < c is the conjunction (pure operands only);
+#     `while` = py_while with the fuel  sum of len(x) for the len(x) of its condition, or len(x) for the single `del x[i]` of its body;
+#   * `float("nan")`: a variable that may hold it cannot be read, except (type nval = option V, None = nan) one that is compared with != or
+#     that is nan on one path of an if and a value on the others; reading such a variable as a value is nv_get (None when it is nan);
+#   * in-place mutation (append, pop(0), del l[i]) only of a list object this update created and has not aliased, or received by
+#     `x = self.f ; self.f = []` from an attribute whose list nobody else refers to (OWNED, checked by check_owned);
+#   * `*args, **kargs` of update may only be passed on to the update of a sub-object; they are empty in the model.
 # `intersect.intersection(a, b, intersect.M)` becomes a call of the HAND model DenseOnlineMerge.oisect_g (intersection() and _append() stay
-# hand-modelled: they are pinned by digest) with gen_m_M, the translation of `def M(a, b): return E` at the end of intersection.py.
+# hand-modelled: they are pinned by digest) with gen_m_M, the translation of `def M(a, b): return E` at the end of intersection.py;
+# `intersect.intersects(x1, x2, y1, y2)` becomes PyDense.py_intersects (hand model, pinned).
 # NOT modelled (as in the hand models): exceptions of float arithmetic inside those functions (ZeroDivisionError, ValueError of log/power).
 # Whatever is not supported: exit code 2 with file:line.  Every *_operation.py in the three directories has to be either translated
-# or pinned by the digest of its syntax tree; update_final of a translated class is pinned too (one of the three known texts).
+# or pinned by the digest of its syntax tree (variable_operation.py); update_final / sat_final of a translated class are pinned too.
 import ast, glob, hashlib, os, sys
 
 D_STL, D_AR, D_IA = ('rtamt/semantics/stl/dense_time/online', 'rtamt/semantics/arithmetic/dense_time/online',
@@ -38,30 +49,65 @@ TRANSLATED = [(D_STL + '/and_operation.py', 'AndOperation'), (D_STL + '/or_opera
               (D_AR + '/negate_operation.py', 'NegateOperation'), (D_AR + '/sqrt_operation.py', 'SqrtOperation'),
               (D_AR + '/exp_operation.py', 'ExpOperation'), (D_AR + '/ln_operation.py', 'LnOperation'),
               (D_STL + '/once_operation.py', 'OnceOperation'), (D_STL + '/historically_operation.py', 'HistoricallyOperation'),
-              (D_STL + '/always_operation.py', 'AlwaysOperation'), (D_STL + '/since_operation.py', 'SinceOperation')]
-# classes that are not translated (hand models: DenseOnlineWin.v, DenseOnlineMon.v, DenseOnlineFold.v): digest of the whole file
-PINNED = {D_STL + '/once_timed_operation.py': '41940b1c2192', D_STL + '/historically_timed_operation.py': 'bca79f391624',
-          D_STL + '/since_timed_operation.py': '8ab6d7855e77', D_STL + '/predicate_operation.py': '2db97f3c19d1',
-          D_STL + '/constant_operation.py': 'c33c4761e7b5', D_STL + '/variable_operation.py': '8782415663a3',
-          D_IA + '/predicate_operation.py': '9b7958556220'}
+              (D_STL + '/always_operation.py', 'AlwaysOperation'), (D_STL + '/since_operation.py', 'SinceOperation'),
+              (D_STL + '/once_timed_operation.py', 'OnceTimedOperation'), (D_STL + '/historically_timed_operation.py', 'HistoricallyTimedOperation'),
+              (D_STL + '/since_timed_operation.py', 'SinceTimedOperation'), (D_STL + '/constant_operation.py', 'ConstantOperation'),
+              (D_STL + '/predicate_operation.py', 'PredicateOperation'), (D_IA + '/predicate_operation.py', 'PredicateOperation')]
+XNAME = {D_IA + '/predicate_operation.py': 'IAPredicate'}       # the name of the generated definitions when it is not the class name without `Operation`
+# the enumerations the predicate classes compare by .value / by identity: the members have to stay distinct (digest of the class)
+ENUMS = {'rtamt/semantics/enumerations/comp_oper.py': ('StlComparisonOperator', '5c8af1a2edb7',
+             {'LESS': 'CLt', 'LEQ': 'CLeq', 'EQ': 'CEq', 'NEQ': 'CNeq', 'GREATER': 'CGt', 'GEQ': 'CGeq'}),
+         'rtamt/semantics/enumerations/options.py': ('Semantics', 'a8c6965af4ee',
+             {'STANDARD': 'Standard', 'OUTPUT_ROBUSTNESS': 'OutputRobustness', 'INPUT_VACUITY': 'InputVacuity', 'INPUT_ROBUSTNESS': 'InputRobustness',
+              'OUTPUT_VACUITY': 'OutputVacuity'})}
+ENUM_OF = {'StlComparisonOperator': ('cmp', ENUMS['rtamt/semantics/enumerations/comp_oper.py'][2]), 'Semantics': ('sem', ENUMS['rtamt/semantics/enumerations/options.py'][2])}
+# classes that are not translated (variable_operation.py: update() returns an attribute nothing in rtamt ever sets; the monitor never calls it): digest of the whole file
+PINNED = {D_STL + '/variable_operation.py': '8782415663a3',
+          }
 # functions of intersection.py: hand-modelled or used by pinned classes only (digest) / translated (`def M(a, b): return E`)
 ISECT_PINNED = {'interval_union': 'b6bbbc8df29d', 'union': '162262a61e97', 'intersects': '5f2df0eb1150', '_append': 'fd5220a5e155', 'intersection': 'dabeaa50aea0', 'ln': '50b1574b42b1', 'split': 'f5ba653bed95'}
 ISECT_METHODS = ['disjunction', 'conjunction', 'implication', 'xor', 'iff', 'addition', 'subtraction', 'multiplication', 'power', 'log',
                  'division']
 ISECT_IMPORTS = {('from', 'rtamt.semantics.arithmetic', 'saturating'), ('import', 'math', None), ('from', 'rtamt', 'RTAMTException')}
-# update_final is not translated: the known texts (binary: update(..) + [self.last] or + [self.last_output]; unary: update(..))
-FINAL_DIGESTS = {'595895ad9749', 'bb0355283bd8', '811810d9fc4e'}
-OK_IMPORTS = {('from', 'rtamt.semantics.abstract_dense_time_online_operation', BASE),
+# update_final / sat_final are not translated: the known texts (binary: update(..) + [self.last] or + [self.last_output]; unary: update(..);
+# the bounded operations, since_timed, constant, the two predicates)
+FINAL_DIGESTS = {'595895ad9749', 'bb0355283bd8', '811810d9fc4e', '4050113703ad', 'cc71ca1473d9', 'a355b7d0333b', '1e2e4b6754b6', '9956a18d21d5', 'e63850ca9943', 'a2313d3e966b'}
+OK_IMPORTS = {('from', 'rtamt.semantics.enumerations.comp_oper', 'StlComparisonOperator'), ('from', 'rtamt.exception.exception', 'RTAMTException'),
+              ('from', 'rtamt.semantics.enumerations.options', 'Semantics'),
+              ('from', 'rtamt.semantics.abstract_dense_time_online_operation', BASE),
               ('import', 'rtamt.semantics.stl.dense_time.online.intersection', 'intersect'), ('import', 'math', None),
               ('from', 'rtamt.semantics.arithmetic', 'saturating')}
 FIELD_TYPES = {'sample_left_buf': 'sig', 'sample_right_buf': 'sig', 'sample_last_buf': 'sig', 'input': 'sig',
                'last_output': 'osample', 'last': 'osample', 'prev': 'val'}
-COQTY = {'sig': 'psig T', 'osample': 'option (psample T)', 'val': 'V'}
+# the bounded operations: pieces (lo, hi, v); residual_start / max are -inf / +inf before the first sample (xstamp); begin, end are ints
+WIN_FIELDS = {'prev': 'pieces', 'residual_start': 'xstamp', 'max': 'xstamp', 'begin': 'int', 'end': 'int', 'started': 'bool'}
+# 'obj:X' = an object of the translated class X (its state record): self.f.update(..) is gen_X_update on that record
+CLASS_FIELD_TYPES = {'OnceTimed': WIN_FIELDS, 'HistoricallyTimed': WIN_FIELDS,
+                     'SinceTimed': {'sample_left_buf': 'sig', 'sample_right_buf': 'sig', 'begin': 'int', 'end': 'int', 'since': 'obj:Since',
+                                    'hist': 'obj:HistoricallyTimed', 'once': 'obj:OnceTimed', 'andop': 'obj:And'},
+                     'Constant': {'val': 'val', 'is_first_sample': 'bool'},
+                     'Predicate': {'sub': 'obj:Subtraction', 'comparison_op': 'cmp', 'subtraction_output': 'sig'},
+                     'IAPredicate': {'base': 'obj:Predicate', 'semantics': 'sem', 'in_vars': 'names', 'out_vars': 'names'}}
+# further methods of a class: translated like update (with the type of what they return) / pinned by the digest of their text
+MORE_METHODS = {'Predicate': {'sat': 'bsig'}}
+MORE_PINNED = {'Predicate': {'sat_final': 'e63850ca9943'}}
+# local variables whose type cannot be seen at their first assignment `x = []`
+LOCAL_TYPES = {('Predicate', 'sat'): {'sample_result': 'bsig'}}
+# parameters of __init__
+INIT_PARAM_TYPES = {'begin': 'int', 'end': 'int', 'val': 'val', 'comparison_op': 'cmp', 'semantics': 'sem', 'in_vars': 'names', 'out_vars': 'names'}
+REG = {}        # translated so far: class name -> (X, module, arity of update, extra parameters of gen_X_update, number of __init__ parameters)
+EXTRA = {'tadd': ' (tadd : T -> Z -> T)', 'tzero': ' (tzero : T)', 'tinf': ' (tinf : T)'}
+EXTRA_ORDER = ('tadd', 'tzero', 'tinf')
+def coqty(ty): return ty[4:] + '_state T' if ty.startswith('obj:') else COQTY[ty]
+# attributes that hold a list object nobody else refers to (checked by check_owned): `x = self.f` directly followed by `self.f = []`
+# hands the object over to x, which may then be mutated in place
+OWNED = {'OnceTimed': {'prev'}, 'HistoricallyTimed': {'prev'}}
+COQTY = {'cmp': 'cmp', 'sem': 'semantics', 'names': 'list nat', 'bsig': 'list (T * bool)', 'sig': 'psig T', 'osample': 'option (psample T)', 'val': 'V', 'pieces': 'list (ppiece T)', 'xstamp': 'xstamp T', 'int': 'Z', 'bool': 'bool'}
 RESERVED = set('''end match with fun let in if then else return as at cofix fix forall exists for using where Type Prop Set Some None
   top bot neg map combine rev fst snd app length repeat seq nth a1 a2 AR VS V Z T nat list option true false tt st
   Abs Sqrt Exp Ln Neg Add Sub Mul Div Pow Log vmin vmax orb andb negb bool prod pair S O nil cons tl hd firstn skipn concat
   tltb teqb ltb leb veq psig psample azero Arith Val left right inl inr eq_refl conj exist existT I Lt Gt Eq xH xI xO Z0 Zpos Zneg TInf
-  Pop1 Pop2 Emit1 Emit2 Bad'''.split())
+  Pop1 Pop2 Emit1 Emit2 Bad CLt CLeq CEq CNeq CGt CGeq cmp semantics Standard OutputRobustness InputVacuity InputRobustness OutputVacuity tadd tzero tinf XNeg XFin XPos ppiece xstamp'''.split())
 
 PATH = '?'
 def fail(node, msg):
@@ -100,18 +146,25 @@ def assigned(stmts):
     return out
 
 class Var:
-    def __init__(self, ty, fresh=False): self.ty, self.fresh = ty, fresh
+    def __init__(self, ty, fresh=False, const=None): self.ty, self.fresh, self.const = ty, fresh, const
 
 class Tr:
     """translation of expressions / statements of one function"""
     def __init__(self, fd):
         self.fd, self.ntmp = fd, 0
+        self.uses, self.ftypes, self.owned, self.classes, self.star = set(), FIELD_TYPES, set(), {}, []
+        self.enums, self.ltypes, self.base, self.rettype = set(), {}, None, 'sig'
+        # names that are an operand of some comparison: `x = float("nan")` makes such an x an option (None = nan), see 'nval'
+        # local names that are somewhere assigned a sample display [t, v]: `x = []` makes such an x an []-or-sample
+        self.osnames = {t.id for n in ast.walk(fd) if isinstance(n, ast.Assign) and isinstance(n.value, ast.List) and len(n.value.elts) == 2 and not all(isinstance(x, ast.List) for x in n.value.elts)
+                        for t in n.targets if isinstance(t, ast.Name)}
+        self.cmpnames = {o.id for n in ast.walk(fd) if isinstance(n, ast.Compare) for o in [n.left] + n.comparators if isinstance(o, ast.Name)}
         self.pynames = {n.id for n in ast.walk(fd) if isinstance(n, ast.Name)} | {a.arg for a in ast.walk(fd) if isinstance(a, ast.arg)} \
                        | {'self_' + n.attr for n in ast.walk(fd) if is_selfattr(n)}
 
     def nm(self, k):
         s = 'self_' + k[5:] if k.startswith('self.') else k
-        r = s + '_' if (s in RESERVED or s.startswith(('py_', 'os_', 'ts_', 'gen_', 'oisect', 'mk_'))) else s
+        r = s + '_' if (s in RESERVED or s.startswith(('py_', 'os_', 'ts_', 'xs_', 'nv_', 'gen_', 'oisect', 'mk_'))) else s
         if not k.startswith('self.') and s.startswith('self_'): fail(self.fd, 'local name %s clashes with the attributes' % s)
         if r != s and r in self.pynames: fail(self.fd, 'cannot rename %s: %s is also used' % (s, r))
         return r
@@ -133,8 +186,22 @@ class Tr:
             v = self.look(e, env)
             return [], self.nm(key(e)), v.ty, False
         if isinstance(e, ast.Constant) and type(e.value) is int and e.value >= 0: return [], str(e.value), 'int', False
+        if isinstance(e, ast.Constant) and type(e.value) is bool: return [], 'true' if e.value else 'false', 'bool', False
         if is_float(e, 'inf'): return [], 'top', 'val', False
         if is_float(e, 'nan'): return [], '?nan', 'nanval', False
+        if isinstance(e, ast.Attribute) and isinstance(e.value, ast.Name) and e.value.id in ENUM_OF and e.value.id in self.enums and e.value.id not in env:
+            ty, members = ENUM_OF[e.value.id]                    # StlComparisonOperator.EQ / Semantics.STANDARD
+            if e.attr not in members: fail(e, 'unknown member %s.%s' % (e.value.id, e.attr))
+            return [], members[e.attr], ty, False
+        if isinstance(e, ast.Attribute) and e.attr == 'value':    # <comparison operator>.value: the members have different values (pinned)
+            b, t, ty, _ = self.expr(e.value, env)
+            if ty != 'cmp': fail(e, '.value of %s' % ty)
+            return b, t, 'cmpv', False
+        if isinstance(e, ast.IfExp):
+            bc, tc = self.cond(e.test, env)
+            b1, t1, y1, _ = self.expr(e.body, env); b2, t2, y2, _ = self.expr(e.orelse, env)
+            if b1 or b2 or y1 != y2 or y1 not in ('bool', 'val'): fail(e, 'conditional expression on %s / %s (or one whose branches may raise)' % (y1, y2))
+            return bc, '(if %s then %s else %s)' % (tc, t1, t2), y1, False
         if isinstance(e, ast.UnaryOp) and isinstance(e.op, ast.USub):
             if is_float(e.operand, 'inf'): return [], 'bot', 'val', False
             b, t, ty, _ = self.expr(e.operand, env)
@@ -151,6 +218,8 @@ class Tr:
             if (y1, y2) == ('val', 'val') and k in ('Add', 'Sub', 'Mult', 'Div'):
                 return b, '(a2 AR %s %s %s)' % ({'Mult': 'Mul'}.get(k, k), t1, t2), 'val', False
             if (y1, y2) == ('sig', 'sig') and k == 'Add': return b, '(%s ++ %s)' % (t1, t2), 'sig', True
+            if (y1, y2) == ('stamp', 'int') and k == 'Add':
+                self.uses.add('tadd'); return b, '(tadd %s %s)' % (t1, t2), 'stamp', False
             fail(e, 'operator %s on %s, %s' % (k, y1, y2))
         if isinstance(e, ast.BoolOp):
             parts = [self.cond(v, env) for v in e.values]
@@ -164,29 +233,35 @@ class Tr:
             x = self.tmp()
             return [(x, '(%s)' % chain(parts))], x, 'bool', False
         if isinstance(e, ast.Compare):
-            if len(e.ops) != 1: fail(e, 'chained comparison')
+            if len(e.ops) != 1:
+                # a <= b < c: the operands are evaluated once, from left to right; here only operands that cannot raise
+                ops_ = [self.expr(x, env) for x in [e.left] + e.comparators]
+                if any(o[0] for o in ops_): fail(e, 'chained comparison whose operands may raise')
+                parts = [self.compare(e, type(op).__name__, ops_[i][1], ops_[i][2], ops_[i + 1][1], ops_[i + 1][2]) for i, op in enumerate(e.ops)]
+                return [], '(%s)' % ' && '.join(parts), 'bool', False
             b1, t1, y1, _ = self.expr(e.left, env); b2, t2, y2, _ = self.expr(e.comparators[0], env)
-            k, b = type(e.ops[0]).__name__, b1 + b2
-            if (y1, y2) == ('val', 'int') and t2 == '0': t2, y2 = '(azero AR)', 'val'
-            if (y1, y2) == ('int', 'val') and t1 == '0': t1, y1 = '(azero AR)', 'val'
-            if y1 != y2 or y1 not in ('int', 'val', 'stamp'): fail(e, 'comparison of %s and %s' % (y1, y2))
-            if y1 == 'int':
-                ops = {'LtE': '<=?', 'Lt': '<?', 'GtE': '>=?', 'Gt': '>?', 'Eq': '=?'}
-                if k not in ops: fail(e, 'comparison %s on ints' % k)
-                return b, '(%s %s %s)' % (t1, ops[k], t2), 'bool', False
-            lt, eq = ('ltb %s %s', 'veq %s %s') if y1 == 'val' else ('tltb %s %s', 'teqb %s %s')
-            form = {'Lt': '(' + lt % (t1, t2) + ')', 'Gt': '(' + lt % (t2, t1) + ')', 'Eq': '(' + eq % (t1, t2) + ')',
-                    'NotEq': '(negb (' + eq % (t1, t2) + '))',
-                    'LtE': '(negb (ltb %s %s))' % (t2, t1) if y1 == 'val' else '(tltb %s %s || teqb %s %s)' % (t1, t2, t1, t2),
-                    'GtE': '(negb (ltb %s %s))' % (t1, t2) if y1 == 'val' else '(tltb %s %s || teqb %s %s)' % (t2, t1, t1, t2)}
-            if k not in form: fail(e, 'comparison %s' % k)
-            return b, form[k], 'bool', False
+            return b1 + b2, self.compare(e, type(e.ops[0]).__name__, t1, y1, t2, y2), 'bool', False
         if isinstance(e, ast.List):
             if not e.elts: return [], '?empty', 'empty', True
+            if len(e.elts) >= 1 and all(isinstance(x, ast.List) and len(x.elts) == 2 for x in e.elts):      # [[t, v], [t', v'], ..]
+                xs = [self.expr(x, env) for x in e.elts]
+                if any(x[2] != 'sample' for x in xs): fail(e, 'list of things that are not samples')
+                return sum((x[0] for x in xs), []), '[%s]' % '; '.join(x[1] for x in xs), 'sig', True
             if len(e.elts) != 2: fail(e, 'list display that is neither [] nor a sample [t, v]')
             b1, t1, y1, _ = self.expr(e.elts[0], env); b2, t2, y2, _ = self.expr(e.elts[1], env)
+            if y1 != 'stamp': b1, t1 = self.as_stamp(e, b1, t1, y1); y1 = 'stamp'
+            if y2 == 'bool': return b1 + b2, '(%s, %s)' % (t1, t2), 'bsample', True
+            if y2 == 'nval':          # a value that may be float("nan"): not a value of the model, None (the correctness proof shows the branch is dead)
+                x = self.tmp(); b2 = b2 + [(x, 'nv_get %s' % t2)]; t2, y2 = x, 'val'
+            if y2 == 'int' and isinstance(e.elts[1], ast.Name) and env[e.elts[1].id].const == 0: t2, y2 = '(azero AR)', 'val'     # x = 0 ... [t, x]
             if (y1, y2) != ('stamp', 'val'): fail(e, 'sample display [%s, %s]' % (y1, y2))
             return b1 + b2, '(%s, %s)' % (t1, t2), 'sample', True
+        if isinstance(e, ast.Tuple):          # a piece (lo, hi, v)
+            if len(e.elts) != 3: fail(e, 'tuple display that is not a piece (lo, hi, v)')
+            xs = [self.expr(x, env) for x in e.elts]
+            b1, t1 = self.as_stamp(e, xs[0][0], xs[0][1], xs[0][2]); b2, t2 = self.as_stamp(e, xs[1][0], xs[1][1], xs[1][2])
+            if xs[2][2] != 'val': fail(e, 'piece display with a %s as value' % xs[2][2])
+            return b1 + b2 + xs[2][0], '(%s, %s, %s)' % (t1, t2, xs[2][1]), 'piece', True
         if isinstance(e, ast.Subscript):
             b, t, ty, _ = self.expr(e.value, env)
             if isinstance(e.slice, ast.Slice):
@@ -199,11 +274,18 @@ class Tr:
                         if yp != 'int': fail(e, 'slice bound of type %s' % yp)
                         bs += bp; ts.append('(Some %s)' % tp)
                 return bs, '(py_slice %s %s %s)' % (t, ts[0], ts[1]), 'sig', True
-            if ty == 'sig':
+            if ty in ('sig', 'pieces', 'bsig'):
                 bi, ti, yi, _ = self.expr(e.slice, env)
-                if yi != 'int': fail(e, 'subscript sig[%s]' % yi)
+                if yi != 'int': fail(e, 'subscript %s[%s]' % (ty, yi))
                 x = self.tmp()
-                return b + bi + [(x, 'py_get %s %s' % (t, ti))], x, 'sample', False
+                return b + bi + [(x, 'py_get %s %s' % (t, ti))], x, {'sig': 'sample', 'pieces': 'piece', 'bsig': 'bsample'}[ty], False
+            if ty == 'bsample':
+                if not (isinstance(e.slice, ast.Constant) and e.slice.value in (0, 1) and type(e.slice.value) is int): fail(e, 'a sample is indexed by the literals 0 and 1 only')
+                return b, '(%s %s)' % ('fst' if e.slice.value == 0 else 'snd', t), 'stamp' if e.slice.value == 0 else 'bool', False
+            if ty == 'piece':
+                if not (isinstance(e.slice, ast.Constant) and e.slice.value in (0, 1, 2) and type(e.slice.value) is int):
+                    fail(e, 'a piece is indexed by the literals 0, 1 and 2 only')
+                return b, '(%s %s)' % (['pp_lo', 'pp_hi', 'pp_v'][e.slice.value], t), 'val' if e.slice.value == 2 else 'stamp', False
             if ty in ('sample', 'osample'):
                 if not (isinstance(e.slice, ast.Constant) and e.slice.value in (0, 1) and type(e.slice.value) is int):
                     fail(e, 'a sample is indexed by the literals 0 and 1 only')
@@ -213,6 +295,41 @@ class Tr:
             fail(e, 'subscript of %s' % ty)
         if isinstance(e, ast.Call): return self.call(e, env)
         fail(e, 'unsupported expression %s' % type(e).__name__)
+
+    def compare(self, e, k, t1, y1, t2, y2):
+        if (y1, y2) == ('val', 'int') and t2 == '0': t2, y2 = '(azero AR)', 'val'
+        if (y1, y2) == ('int', 'val') and t1 == '0': t1, y1 = '(azero AR)', 'val'
+        if (y1, y2) == ('stamp', 'int') and t2 == '0': self.uses.add('tzero'); t2, y2 = 'tzero', 'stamp'
+        if (y1, y2) == ('int', 'stamp') and t1 == '0': self.uses.add('tzero'); t1, y1 = 'tzero', 'stamp'
+        if (y1, y2) in (('cmpv', 'cmpv'), ('sem', 'sem')) and k == 'Eq': return '(%s %s %s)' % ('cmp_eqb' if y1 == 'cmpv' else 'sem_eqb', t1, t2)
+        if (y1, y2) == ('bool', 'bool') and k == 'Eq' and t2 == 'true': return '(Bool.eqb %s true)' % t1
+        if (y1, y2) == ('val', 'nval') and k == 'NotEq': return '(nv_neq %s %s)' % (t1, t2)       # x != prev, prev = nan or a value
+        if (y1, y2) == ('stamp', 'xstamp'): t1, y1 = '(XFin %s)' % t1, 'xstamp'
+        if (y1, y2) == ('xstamp', 'stamp'): t2, y2 = '(XFin %s)' % t2, 'xstamp'
+        if y1 != y2 or y1 not in ('int', 'val', 'stamp', 'xstamp'): fail(e, 'comparison of %s and %s' % (y1, y2))
+        if y1 == 'int':
+            ops = {'LtE': '<=?', 'Lt': '<?', 'GtE': '>=?', 'Gt': '>?', 'Eq': '=?'}
+            if k not in ops: fail(e, 'comparison %s on ints' % k)
+            return '(%s %s %s)' % (t1, ops[k], t2)
+        lt, eq = {'val': ('ltb %s %s', 'veq %s %s'), 'stamp': ('tltb %s %s', 'teqb %s %s'),
+                  'xstamp': ('xs_ltb tltb %s %s', 'xs_eqb teqb %s %s')}[y1]
+        L = lambda a, c: lt % (a, c)
+        Q = lambda a, c: eq % (a, c)
+        form = {'Lt': '(' + L(t1, t2) + ')', 'Gt': '(' + L(t2, t1) + ')', 'Eq': '(' + Q(t1, t2) + ')',
+                'NotEq': '(negb (' + Q(t1, t2) + '))',
+                'LtE': '(negb (ltb %s %s))' % (t2, t1) if y1 == 'val' else '(%s || %s)' % (L(t1, t2), Q(t1, t2)),
+                'GtE': '(negb (ltb %s %s))' % (t1, t2) if y1 == 'val' else '(%s || %s)' % (L(t2, t1), Q(t1, t2))}
+        if k not in form: fail(e, 'comparison %s' % k)
+        return form[k]
+
+    def as_stamp(self, e, b, t, ty):
+        """t : ty where a stamp is expected (the first component of a sample or a piece)"""
+        if ty == 'stamp': return b, t
+        if ty == 'int' and t == '0': self.uses.add('tzero'); return b, 'tzero'
+        if ty == 'val' and t == 'top': self.uses.add('tinf'); return b, 'tinf'          # float("inf") as the stamp of a sample
+        if ty == 'xstamp':          # -inf / +inf cannot be the stamp of a sample of the model: None (the correctness proof shows it does not happen)
+            x = self.tmp(); return b + [(x, 'xs_get %s' % t)], x
+        fail(e, '%s where a time stamp is expected' % ty)
 
     def call(self, e, env):
         f = e.func
@@ -227,11 +344,18 @@ class Tr:
             if k in (('math', 'log'), ('math', 'sqrt')) and tys == ['val']:
                 x = self.tmp()
                 return b + [(x, '%s AR %s' % ('py_ln' if f.attr == 'log' else 'py_sqrt', args[0][1]))], x, 'val', False
+            if k == ('intersect', 'intersects') and tys == ['stamp'] * 4 and self.uses_isect:     # hand-modelled (pinned): x1 <= y2 and y1 <= x2
+                return b, '(py_intersects tltb teqb %s)' % ' '.join(a[1] for a in args), 'bool', False
             fail(e, 'unknown function %s.%s(%s)' % (k[0], k[1], ', '.join(tys)))
         if not isinstance(f, ast.Name) or f.id in env: fail(e, 'unsupported call')
         args = [self.expr(a, env) for a in e.args]
         b, tys = sum((a[0] for a in args), []), [a[2] for a in args]
-        if f.id == 'len' and tys == ['sig']: return b, '(py_len %s)' % args[0][1], 'int', False
+        if f.id == 'list' and not args: return [], '?empty', 'empty', True
+        if f.id in self.classes:           # ClassName(args): a fresh object of a translated class
+            X2, _, _, _, nip, _ = self.classes[f.id]
+            if b or len(args) != len(nip) or any(ty != w for ty, w in zip(tys, nip)): fail(e, 'constructor %s(%s)' % (f.id, ', '.join(tys)))
+            return [], '(%s_init T%s)' % (X2, ''.join(' ' + a[1] for a in args)), 'obj:' + X2, True
+        if f.id == 'len' and tys in (['sig'], ['pieces'], ['bsig']): return b, '(py_len %s)' % args[0][1], 'int', False
         if f.id == 'abs' and tys == ['val']: return b, '(a1 AR Abs %s)' % args[0][1], 'val', False
         if f.id == 'float' and tys == ['val']: return b, args[0][1], 'val', False
         if f.id in ('min', 'max') and tys == ['val', 'val']: return b, '(py_%s2 %s %s)' % (f.id, args[0][1], args[1][1]), 'val', False
@@ -242,14 +366,18 @@ class Tr:
         """truth value of e: (binds, Boolean term)"""
         b, t, ty, _ = self.expr(e, env)
         if ty == 'bool': return b, t
-        if ty == 'sig': return b, '(py_truthy %s)' % t
+        if ty in ('sig', 'pieces', 'bsig', 'names'): return b, '(py_truthy %s)' % t
         if ty == 'osample': return b, '(os_truthy %s)' % t
         fail(e, 'truth value of %s' % ty)
 
     def coerce(self, e, t, ty, want):
         """the term t of type ty, stored in a variable of type `want`"""
         if ty == want: return t
-        if ty == 'empty' and want == 'sig': return '[]'
+        if ty == 'empty' and want in ('sig', 'pieces', 'bsig'): return '[]'
+        if ty == 'val' and want == 'xstamp' and t in ('top', 'bot'): return 'XPos' if t == 'top' else 'XNeg'      # float("inf") / -float("inf")
+        if ty == 'stamp' and want == 'xstamp': return '(XFin %s)' % t
+        if ty == 'val' and want == 'nval': return '(Some %s)' % t
+        if ty == 'nanval' and want == 'nval': return 'None'
         if ty == 'empty' and want == 'osample': return 'None'
         if ty == 'sample' and want == 'osample': return '(Some %s)' % t
         fail(e, 'a value of type %s is stored where %s is expected' % (ty, want))
@@ -266,20 +394,27 @@ class Tr:
         """lines of `target = <t : ty>`"""
         k = key(target)
         if k is None or k == 'self': fail(s, 'unsupported assignment target')
-        if k in self.params: fail(s, 'assignment to a parameter')
-        if ty == 'bool': fail(s, 'variable of type bool')
+        if k in self.params and not (ty == 'sig' and env[k].ty == 'sig'): fail(s, 'assignment to a parameter (other than rebinding it to another list of samples)')
+        if ty == 'bool' and k.startswith('self.') and not (self.ftypes.get(k[5:]) == 'bool' and t in ('true', 'false')):
+            fail(s, 'attribute of type bool that receives something else than True / False')
         if k.startswith('self.'):
             f = k[5:]
-            if f not in FIELD_TYPES: fail(s, 'attribute %s: no type known to the translator' % f)
-            want = FIELD_TYPES[f]
+            if f not in self.ftypes: fail(s, 'attribute %s: no type known to the translator' % f)
+            want = self.ftypes[f]
         elif k in env and env[k].ty != 'nanval': want = env[k].ty
-        else: want = {'empty': 'sig', 'sample': 'sample'}.get(ty, ty)
-        if ty == 'nanval':
+        elif k in self.ltypes: want = self.ltypes[k]
+        else: want = {'empty': 'osample' if k in self.osnames else 'sig', 'sample': 'osample' if k in self.osnames else 'sample'}.get(ty, ty)
+        if ty == 'nanval' and not (k in self.cmpnames and (k not in env or env[k].ty in ('nanval', 'nval'))):
             if k.startswith('self.'): fail(s, 'float("nan") stored in an attribute')
             env[k] = Var('nanval')
             return []
+        if ty == 'nanval': want = 'nval'
         t = self.coerce(s, t, ty, want)
-        env[k] = Var(want, fresh)
+        env[k] = Var(want, fresh, 0 if (ty == 'int' and t == '0') else None)
+        tr_ = set(env.get('?truthy', ()))       # an []-or-sample variable that has just received a sample is not []
+        if ty == 'sample' and want == 'osample': tr_.add(k)
+        else: tr_.discard(k)
+        env['?truthy'] = tr_
         return [ind + 'let %s := %s in' % (self.nm(k), t)]
 
     def block(self, stmts, env, final, ind, top=False):
@@ -292,7 +427,8 @@ class Tr:
             # statements after the return of the method are dead; only further `return`s are tolerated there (xor_operation.py)
             if not top or s.value is None or not all(isinstance(r, ast.Return) for r in rest): fail(s, 'return must be the last statement of the method')
             b, t, ty, _ = self.expr(s.value, env)
-            if ty != 'sig': fail(s, 'returns %s' % ty)
+            if ty == 'empty' and self.rettype in ('sig', 'bsig'): t, ty = '[]', self.rettype
+            if ty != self.rettype: fail(s, 'returns %s' % ty)
             return self.binds(b, ind) + final(env, ind, t)
         if isinstance(s, ast.Raise):
             if rest: fail(s, 'statements after raise')
@@ -317,10 +453,51 @@ class Tr:
                     env[n] = Var(ty, True)
                 return self.binds(b1 + b2, ind) + [ind + "'(%s, %s, %s, %s) <- oisect_g T tltb teqb (gen_m_%s AR) %s %s ;;"
                                                    % tuple([self.nm(n) for n in names] + [c.args[2].attr, t1, t2])] + cont()
-            if key(s.value) is not None and self.look(s.value, env).ty == 'sig':     # x = y: two names for one list object
-                env[key(s.value)] = Var('sig', False)
+            c = s.value
+            if self.base and isinstance(c, ast.Call) and isinstance(c.func, ast.Attribute) and is_name(c.func.value, self.base[0]) and self.base[0] not in env:
+                # x = Base.m(self, a, ..): the method of the base class, on the attributes of the base class (the record self.base)
+                info = self.classes[self.base[0]][5]
+                if c.func.attr not in info or c.keywords or not c.args or not is_name(c.args[0], 'self'): fail(s, 'unsupported call of a method of the base class')
+                ar2, ex2, rt2 = info[c.func.attr]
+                args = [self.expr(a, env) for a in c.args[1:]]
+                if len(args) != ar2 or any(a[2] != 'sig' for a in args): fail(s, '%s.%s with %s' % (self.base[0], c.func.attr, [a[2] for a in args]))
+                if len(tg) != 1 or not isinstance(tg[0], ast.Name) or tg[0].id in self.params or tg[0].id in env: fail(s, 'the result has to be bound to one new local name')
+                self.uses |= set(ex2)
+                env[tg[0].id] = Var(rt2, False)
+                return self.binds(sum((a[0] for a in args), []), ind) + \
+                    [ind + "'(self_base, %s) <- gen_%s_%s AR T tltb teqb%s self_base%s ;;" % (self.nm(tg[0].id), self.base[1], c.func.attr, ''.join(' ' + q for q in ex2),
+                                                                                             ''.join(' ' + a[1] for a in args))] + cont()
+            if isinstance(c, ast.Call) and isinstance(c.func, ast.Attribute) and is_selfattr(c.func.value) and c.func.attr == 'update':
+                # x = self.f.update(a, ..): the update of the sub-object self.f (an object of a translated class); it changes the state of self.f
+                ko = key(c.func.value)
+                vo = self.look(c.func.value, env)
+                if not vo.ty.startswith('obj:'): fail(s, 'update() of an attribute that is not an operation object')
+                X2 = vo.ty[4:]
+                _, _, ar2, ex2, _, _ = [v for v in REG.values() if v[0] == X2][0]
+                pos = [a for a in c.args if not isinstance(a, ast.Starred)]
+                st_ = [a.value.id for a in c.args if isinstance(a, ast.Starred) and isinstance(a.value, ast.Name)] + \
+                      [k_.value.id for k_ in c.keywords if k_.arg is None and isinstance(k_.value, ast.Name)]
+                # *args, **kargs of the method itself may be passed on: they are empty in the model (the visitor never supplies any)
+                if len(st_) != len(c.args) - len(pos) + len(c.keywords) or st_ != self.star[:len(st_)] or (st_ and len(st_) != len(self.star)):
+                    fail(s, 'unsupported arguments in the call of update()')
+                args = [self.expr(a, env) for a in pos]
+                if len(args) != ar2 or any(a[2] != 'sig' for a in args): fail(s, 'update of %s with %s' % (X2, [a[2] for a in args]))
+                if len(tg) != 1 or not isinstance(tg[0], ast.Name) or tg[0].id in self.params or (tg[0].id in env and env[tg[0].id].ty != 'sig'):
+                    fail(s, 'the result of update() has to be bound to one local name')
+                self.uses |= set(ex2)
+                env[tg[0].id] = Var('sig', False)
+                return self.binds(sum((a[0] for a in args), []), ind) + \
+                    [ind + "'(%s, %s) <- gen_%s_update AR T tltb teqb%s %s%s ;;" % (self.nm(ko), self.nm(tg[0].id), X2, ''.join(' ' + q for q in ex2),
+                                                                                   self.nm(ko), ''.join(' ' + a[1] for a in args))] + cont()
+            if key(s.value) is not None and self.look(s.value, env).ty in ('sig', 'pieces'):     # x = y: two names for one list object
+                env[key(s.value)] = Var(env[key(s.value)].ty, False)
             b, t, ty, fresh = self.expr(s.value, env)
             if key(s.value) is not None: fresh = False
+            # out = self.f ; self.f = []   with f an attribute whose list nobody else refers to: the object now belongs to `out`
+            if is_selfattr(s.value) and s.value.attr in self.owned and len(tg) == 1 and isinstance(tg[0], ast.Name) and rest \
+                    and isinstance(rest[0], ast.Assign) and len(rest[0].targets) == 1 and key(rest[0].targets[0]) == key(s.value) \
+                    and isinstance(rest[0].value, ast.List) and not rest[0].value.elts:
+                fresh = True
             if len(tg) > 1 and (b or ty not in ('int', 'val', 'stamp')): fail(s, 'chained assignment of something else than a pure number')
             lines = self.binds(b, ind)
             for target in tg: lines += self.store(s, target, t, ty, fresh, env, ind)
@@ -336,10 +513,14 @@ class Tr:
                 obj, m, argn = c.func.value, c.func.attr, c.args
             if key(obj) is None: fail(s, 'in-place %s on an expression' % m)
             v, x = self.look(obj, env), self.nm(key(obj))
-            if not v.fresh or v.ty != 'sig': fail(s, 'in-place %s on %s that may be shared' % (m, v.ty))
+            if not v.fresh or v.ty not in ('sig', 'pieces', 'bsig'): fail(s, 'in-place %s on %s that may be shared' % (m, v.ty))
             args = [self.expr(a, env) for a in argn]
             b, tys = sum((a[0] for a in args), []), [a[2] for a in args]
-            if m == 'append' and tys in (['sample'], ['osample']):
+            if m == 'append' and tys == ['bsample'] and v.ty == 'bsig':
+                return self.binds(b, ind) + [ind + 'let %s := %s ++ [%s] in' % (x, x, args[0][1])] + cont()
+            if m == 'append' and tys == ['piece'] and v.ty == 'pieces':
+                return self.binds(b, ind) + [ind + 'let %s := %s ++ [%s] in' % (x, x, args[0][1])] + cont()
+            if m == 'append' and tys in (['sample'], ['osample']) and v.ty == 'sig':
                 t = args[0][1]
                 if tys == ['osample']:      # appending [] would leave a list that is not a list of samples: only where `if x:` holds
                     if key(argn[0]) not in env.get('?truthy', ()): fail(s, 'append of a value that may be []')
@@ -356,7 +537,33 @@ class Tr:
             carried = sorted(n for n in mut if n in env and env[n].ty != 'nanval')
             env0 = dict(env); env0.pop('?truthy', None)
             for n in carried: env0[n] = Var(env0[n].ty, env0[n].fresh)
-            if isinstance(s, ast.For):
+            shadow = []
+            if isinstance(s, ast.For) and isinstance(s.target, ast.Tuple):      # for i, b in enumerate(l)
+                it = s.iter
+                if not (len(s.target.elts) == 2 and all(isinstance(x, ast.Name) for x in s.target.elts) and isinstance(it, ast.Call)
+                        and is_name(it.func, 'enumerate') and 'enumerate' not in env and len(it.args) == 1 and not it.keywords and key(it.args[0])):
+                    fail(s, 'for with a tuple target other than `for i, x in enumerate(l)`')
+                ni, nx = [x.id for x in s.target.elts]
+                lk = key(it.args[0])
+                if lk in mut or ni in mut or nx in mut or ni == nx: fail(s, 'the body assigns the list or a target of the loop')
+                ety = {'sig': 'sample', 'pieces': 'piece'}.get(self.look(it.args[0], env).ty)
+                if ety is None: fail(s, 'iteration over %s' % env[lk].ty)
+                # a target may re-use a local name of the same type: after the loop that name is unusable (it keeps its old value when l is empty)
+                for n, ty in ((ni, 'int'), (nx, ety)):
+                    if n in env:
+                        if n in self.params or n.startswith('self') or env[n].ty != ty: fail(s, 'loop target %s re-uses a name of another type' % n)
+                        shadow.append(n)
+                carried = [n for n in carried if n not in shadow]
+                env2 = dict(env0); env2[ni] = Var('int'); env2[nx] = Var(ety)
+                head = ind + "%s <- py_for (py_enumerate %s) (fun '(%s, %s) %s =>" % (self.pat(carried), self.nm(lk), self.nm(ni), self.nm(nx), self.pat(carried))
+            elif isinstance(s, ast.For) and isinstance(s.iter, ast.Call) and is_name(s.iter.func, 'range') and 'range' not in env:      # for i in range(len(l))
+                if not isinstance(s.target, ast.Name) or s.target.id in env or s.target.id in mut: fail(s, 'loop target must be a new name the body does not assign')
+                if len(s.iter.args) != 1 or s.iter.keywords: fail(s, 'range with more than one argument')
+                bn, tn, yn, _ = self.expr(s.iter.args[0], env)
+                if bn or yn != 'int' or any(isinstance(n, ast.Name) and n.id in mut for n in ast.walk(s.iter)): fail(s, 'range over something that may raise / that the body changes')
+                env2 = dict(env0); env2[s.target.id] = Var('int')
+                head = ind + '%s <- py_for (py_range 0 %s) (fun %s %s =>' % (self.pat(carried), tn, self.nm(s.target.id), self.pat(carried))
+            elif isinstance(s, ast.For):
                 if not isinstance(s.target, ast.Name) or s.target.id in env or s.target.id in mut: fail(s, 'loop target must be a new name the body does not assign')
                 if key(s.iter) is None or key(s.iter) in mut: fail(s, 'iteration over something else than a list variable the body leaves alone')
                 if self.look(s.iter, env).ty != 'sig': fail(s, 'iteration over %s' % env[key(s.iter)].ty)
@@ -367,7 +574,15 @@ class Tr:
                 bc, tc = self.cond(s.test, env2)
                 if bc: fail(s, 'the condition of a while loop must not raise')
                 lens = [n.args[0] for n in ast.walk(s.test) if isinstance(n, ast.Call) and is_name(n.func, 'len') and len(n.args) == 1 and key(n.args[0])]
-                if not lens: fail(s, 'while loop without a len(x) in its condition: no fuel')
+                if not lens:
+                    # no len(x) in the condition: a loop whose body, on its only path, deletes one element of x per iteration and never extends x
+                    dels = [st_.targets[0].value for st_ in s.body if isinstance(st_, ast.Delete) and len(st_.targets) == 1
+                            and isinstance(st_.targets[0], ast.Subscript) and key(st_.targets[0].value)]
+                    grows = [n for n in ast.walk(s) if isinstance(n, ast.Attribute) and n.attr in ('append', 'extend', 'insert')] + \
+                            [n for st_ in ast.walk(s) if isinstance(st_, (ast.Assign, ast.AugAssign)) for n in ([st_.target] if isinstance(st_, ast.AugAssign) else st_.targets)
+                             if dels and key(n) == key(dels[0])]
+                    if len(dels) != 1 or grows: fail(s, 'while loop without a len(x) in its condition and without a single del x[i] per iteration: no fuel')
+                    lens = dels
                 fuel = '(%s)%%nat' % ' + '.join('length %s' % self.nm(key(x)) for x in lens)
                 head = ind + "%s <- py_while %s (fun %s => %s) (fun %s =>" % (self.pat(carried), fuel, self.pat(carried), tc, self.pat(carried))
             def fin(e2, i2, ret=None):
@@ -376,6 +591,7 @@ class Tr:
                 return [i2 + 'Some %s' % self.tup(carried)]
             body = self.block(s.body, env2, fin, ind + '    ')
             for n in carried: env[n] = Var(env[n].ty, env[n].fresh)
+            for n in shadow: env.pop(n)
             env.pop('?truthy', None)
             body[-1] += ') %s ;;' % self.tup(carried)
             return [head] + body + cont()
@@ -392,13 +608,34 @@ class Tr:
             poison = [n for n in names if (n not in env or env[n].ty == 'nanval') and not all(n in assigned(bl) for bl in live)]
             names = [n for n in names if n not in poison]
             newenv = {}
-            def fin(e2, i2, ret=None):
+            # first pass: the type of every name at the end of each live branch; a name that is a value on one path and float("nan") on another
+            # becomes an option (None = nan): 'nval'
+            seen = {n: set() for n in names}
+            missing = set()
+            def fin0(e2, i2, ret=None):
                 for n in names:
-                    if n not in e2: fail(s, '%s is not bound on every path' % n)
-                    if e2[n].ty == 'nanval': fail(s, '%s may be float("nan") after the if' % n)
-                    if n in newenv and newenv[n].ty != e2[n].ty: fail(s, '%s has two types' % n)
-                    newenv[n] = Var(e2[n].ty, e2[n].fresh and newenv.get(n, e2[n]).fresh)
-                return [i2 + 'Some %s' % self.tup(names)]
+                    if n not in e2: missing.add(n)       # assigned inside a loop of the branch only: local to that loop in the model
+                    else: seen[n].add(e2[n].ty)
+                return [i2 + 'Some tt']
+            save = self.ntmp, set(self.uses)
+            self.block(s.body, envt, fin0, ind + '    '); self.block(s.orelse, env, fin0, ind + '    ')
+            self.ntmp, self.uses = save
+            for n in sorted(missing):
+                if n in env: fail(s, '%s is not bound on every path' % n)
+                names.remove(n); poison.append(n)
+            unified = {n: 'nval' for n in names if len(seen[n]) > 1 and seen[n] <= {'val', 'nval', 'nanval'}}
+            def fin(e2, i2, ret=None):
+                terms = []
+                for n in names:
+                    ty2 = e2[n].ty
+                    if n in unified:
+                        terms.append({'val': '(Some %s)' % self.nm(n), 'nval': self.nm(n), 'nanval': 'None'}[ty2]); ty2 = 'nval'
+                    else: terms.append(self.nm(n))
+                    if ty2 == 'nanval': fail(s, '%s may be float("nan") after the if' % n)
+                    if n in newenv and newenv[n].ty != ty2: fail(s, '%s has two types' % n)
+                    newenv[n] = Var(ty2, e2[n].fresh and newenv.get(n, e2[n]).fresh)
+                if not terms: return [i2 + 'Some tt']
+                return [i2 + 'Some %s' % ('(%s)' % ', '.join(terms) if len(terms) > 1 else terms[0])]
             th = self.block(s.body, envt, fin, ind + '    ')
             el = self.block(s.orelse, env, fin, ind + '    ')
             for n in names:
@@ -419,8 +656,8 @@ def imports_of(mod, classes_ok=True):
             for al in s.names: imports.add(('import', al.name, al.asname))
         elif isinstance(s, ast.ImportFrom):
             for al in s.names:
-                if al.asname or s.level: fail(s, 'from ... import ... as / relative import')
-                imports.add(('from', s.module, al.name))
+                if s.level: fail(s, 'relative import')
+                imports.add(('from', s.module, al.name + (' as ' + al.asname if al.asname else '')))
         else: rest.append(s)
     return imports, rest
 
@@ -462,50 +699,87 @@ def translate_class(root, rel, cname, printing):
     PATH = root + '/' + rel
     mod = ast.parse(open(PATH).read(), PATH)
     imports, rest = imports_of(mod)
+    # classes translated before this one: from <module> import <Class> [as <Alias>]
+    classes = {}
+    for i in sorted(imports, key=str):
+        if i[0] == 'from' and i[1] in REG and REG[i[1]][1] == i[2].split(' as ')[0]:
+            classes[i[2].split(' as ')[-1]] = (REG[i[1]][0],) + REG[i[1]][1:]
+            imports = imports - {i}
     if not imports <= OK_IMPORTS: fail(mod.body[0], 'unknown import: %s' % sorted(imports - OK_IMPORTS, key=str))
-    if ('from', 'rtamt.semantics.abstract_dense_time_online_operation', BASE) not in imports: fail(mod.body[0], 'the base class is not imported')
+    enums = {i[2] for i in imports if i[2] in ENUM_OF}
     if len(rest) != 1 or not isinstance(rest[0], ast.ClassDef): fail(rest[0] if rest else mod, 'expected exactly one class and nothing else')
     cl = rest[0]
-    if cl.name != cname or [getattr(b, 'id', None) for b in cl.bases] != [BASE] or cl.keywords or cl.decorator_list:
-        fail(cl, 'expected class %s(%s)' % (cname, BASE))
-    X = cname[:-len('Operation')]
+    bases = [getattr(b, 'id', None) for b in cl.bases]
+    base = None          # (local name of the base class, its X) when the class extends a translated class
+    if len(bases) == 1 and bases[0] in classes: base = (bases[0], classes[bases[0]][0])
+    elif bases != [BASE] or ('from', 'rtamt.semantics.abstract_dense_time_online_operation', BASE) not in imports: fail(cl, 'expected class %s(%s)' % (cname, BASE))
+    if cl.name != cname or cl.keywords or cl.decorator_list: fail(cl, 'expected class %s' % cname)
+    X = XNAME.get(rel, cname[:-len('Operation')])
+    more, morep = MORE_METHODS.get(X, {}), MORE_PINNED.get(X, {})
     meths = {}
     for s in cl.body:
         if not isinstance(s, ast.FunctionDef) or s.decorator_list or s.returns: fail(s, 'unexpected class-level statement %s' % type(s).__name__)
         if s.name in meths: fail(s, 'method %s defined twice' % s.name)
-        if s.name not in ('__init__', 'reset', 'update', 'update_final'): fail(s, 'new method %s: not known to the translator' % s.name)
+        if s.name not in ('__init__', 'reset', 'update', 'update_final') and s.name not in more and s.name not in morep: fail(s, 'new method %s: not known to the translator' % s.name)
         meths[s.name] = s
-    for m in ('__init__', 'update', 'update_final'):
+    for m in ['__init__', 'update', 'update_final'] + list(more) + list(morep):
         if m not in meths: fail(cl, 'method %s removed' % m)
-    if printing: print('FINAL', cname, digest(meths['update_final']))
-    elif digest(meths['update_final']) not in FINAL_DIGESTS: fail(meths['update_final'], 'update_final changed (digest %s)' % digest(meths['update_final']))
+    for m in ['update_final'] + list(morep):
+        if printing: print('FINAL', cname, m, digest(meths[m]))
+        elif digest(meths[m]) not in FINAL_DIGESTS: fail(meths[m], '%s changed (digest %s)' % (m, digest(meths[m])))
     # ---- __init__: the state record
     ini = meths['__init__']
     a = ini.args
-    if [x.arg for x in a.args] != ['self'] or a.vararg or a.kwarg or a.defaults or a.kwonlyargs or a.posonlyargs: fail(ini, 'signature of __init__ changed')
-    tr = Tr(ini); tr.params = []; tr.uses_isect = False
+    iparams = [x.arg for x in a.args][1:]
+    if [x.arg for x in a.args][:1] != ['self'] or a.vararg or a.kwarg or a.defaults or a.kwonlyargs or a.posonlyargs or len(set(iparams)) != len(iparams) \
+            or any(q not in INIT_PARAM_TYPES for q in iparams): fail(ini, 'signature of __init__ changed')
+    ftypes = CLASS_FIELD_TYPES.get(X, FIELD_TYPES)
+    owned = OWNED.get(X, set())
+    for f in sorted(owned): check_owned(cl, f)
+    def newtr(fd, mname=None):
+        t = Tr(fd); t.ftypes, t.owned, t.classes, t.enums, t.base = ftypes, owned, classes, enums, base
+        t.ltypes = LOCAL_TYPES.get((X, mname), {})
+        t.uses_isect = ('import', 'rtamt.semantics.stl.dense_time.online.intersection', 'intersect') in imports
+        return t
+    tr = newtr(ini); tr.params = iparams; tr.uses_isect = False
+    ienv = {q: Var(INIT_PARAM_TYPES[q]) for q in iparams}
     fields = []
     for s in ini.body:
         if isinstance(s, ast.Pass): continue
+        if base and isinstance(s, ast.Expr) and isinstance(s.value, ast.Call) and isinstance(s.value.func, ast.Attribute) and is_name(s.value.func.value, base[0]) \
+                and s.value.func.attr == '__init__' and not s.value.keywords and s.value.args and is_name(s.value.args[0], 'self') and not fields:
+            # Base.__init__(self, args): the attributes of the base class are the record `base`
+            args = [tr.expr(x, ienv) for x in s.value.args[1:]]
+            nip = classes[base[0]][4]
+            if any(x[0] for x in args) or [x[2] for x in args] != nip: fail(s, 'arguments of %s.__init__' % base[0])
+            fields.append(('base', 'obj:' + base[1], '(%s_init T%s)' % (base[1], ''.join(' ' + x[1] for x in args))))
+            continue
         if not (isinstance(s, ast.Assign) and len(s.targets) == 1 and is_selfattr(s.targets[0])): fail(s, '__init__ may only contain self.f = E')
         f = s.targets[0].attr
         if f in [x[0] for x in fields]: fail(s, 'attribute %s is set twice' % f)
-        if f not in FIELD_TYPES: fail(s, 'attribute %s: no type known to the translator' % f)
-        b, t, ty, _ = tr.expr(s.value, {})
+        if f not in ftypes or f == 'base': fail(s, 'attribute %s: no type known to the translator' % f)
+        b, t, ty, _ = tr.expr(s.value, ienv)
         if b: fail(s, 'initial value may raise')
-        fields.append((f, FIELD_TYPES[f], tr.coerce(s, t, ty, FIELD_TYPES[f])))
+        fields.append((f, ftypes[f], tr.coerce(s, t, ty, ftypes[f])))
+        ienv['self.' + f] = Var(ftypes[f])
+    if base and [f for f, _, _ in fields][:1] != ['base']: fail(ini, '__init__ does not start with %s.__init__(self, ..)' % base[0])
+    reads_attr = any(is_selfattr(n) and isinstance(n.ctx, ast.Load) for n in ast.walk(ini))
     out = ['(* ---------------- %s : class %s ---------------- *)' % (rel, cname)]
     if fields:
         out.append('Record %s_state {VS : Val} (T : Type) : Type := mk_%s_state { %s }.'
-                   % (X, X, '; '.join('%s_%s : %s' % (X, f, COQTY[ty]) for f, ty, _ in fields)))
+                   % (X, X, '; '.join('%s_%s : %s' % (X, f, coqty(ty)) for f, ty, _ in fields)))
         out.append('Arguments mk_%s_state {VS T}.' % X)
         out += ['Arguments %s_%s {VS T} _.' % (X, f) for f, _, _ in fields]
-        out.append('Definition %s_init {VS : Val} (T : Type) : %s_state T := @mk_%s_state VS T %s.' % (X, X, X, ' '.join(v for _, _, v in fields)))
+        ihead = 'Definition %s_init {VS : Val} (T : Type)%s : %s_state T :=' % (X, ''.join(' (%s : %s)' % (tr.nm(q), COQTY[INIT_PARAM_TYPES[q]]) for q in iparams), X)
+        if reads_attr:       # a later `self.g = E` of __init__ reads an attribute set before
+            out.append(ihead + '\n' + ''.join('  let %s := %s in\n' % (tr.nm('self.' + f), v) for f, _, v in fields)
+                       + '  @mk_%s_state VS T %s.' % (X, ' '.join(tr.nm('self.' + f) for f, _, _ in fields)))
+        else: out.append(ihead + ' @mk_%s_state VS T %s.' % (X, ' '.join(v for _, _, v in fields)))
     else:
         out.append('Definition %s_state {VS : Val} (T : Type) : Type := unit.' % X)
         out.append('Definition %s_init {VS : Val} (T : Type) : %s_state T := tt.' % (X, X))
     mk = lambda tr: ('(@mk_%s_state VS T %s)' % (X, ' '.join(tr.nm('self.' + f) for f, _, _ in fields))) if fields else 'tt'
-    PRE = 'Definition gen_%s_%s {VS : Val} (AR : Arith VS) (T : Type) (tltb teqb : T -> T -> bool) (st : %s_state T)'
+    PRE = 'Definition gen_%s_%s {VS : Val} (AR : Arith VS) (T : Type) (tltb teqb : T -> T -> bool)%s (st : %s_state T)'
     def prologue(tr):
         env = {'self.' + f: Var(ty, False) for f, ty, _ in fields}
         return env, ['  let %s := %s_%s st in' % (tr.nm('self.' + f), X, f) for f, _, _ in fields]
@@ -513,7 +787,7 @@ def translate_class(root, rel, cname, printing):
     if 'reset' in meths:
         rs = meths['reset']; a = rs.args
         if [x.arg for x in a.args] != ['self'] or a.vararg or a.kwarg or a.defaults or a.kwonlyargs or a.posonlyargs: fail(rs, 'signature of reset changed')
-        tr = Tr(rs); tr.params = []; tr.uses_isect = False
+        tr = newtr(rs); tr.params = []; tr.uses_isect = False
         env, pre = prologue(tr)
         def fin_reset(e2, i2, ret=None):
             for f, ty, _ in fields:
@@ -521,30 +795,71 @@ def translate_class(root, rel, cname, printing):
             return [i2 + 'Some %s' % mk(tr)]
         lines = pre + tr.block(list(rs.body), env, fin_reset, '  ')
         out.append('(* %s:%d *)' % (rel.split('/')[-1], rs.lineno))
-        out.append((PRE % (X, 'reset', X)) + ' : option (%s_state T) :=\n' % X + '\n'.join(lines) + '.')
+        if tr.uses: fail(rs, 'reset uses stamp arithmetic')
+        out.append((PRE % (X, 'reset', '', X)) + ' : option (%s_state T) :=\n' % X + '\n'.join(lines) + '.')
+    elif base:       # inherited: the reset of the base class on the attributes of the base class
+        trb = newtr(ini)
+        out.append((PRE % (X, 'reset', '', X)) + ' : option (%s_state T) :=\n' % X + '\n'.join(prologue(trb)[1])
+                   + '\n  self_base <- gen_%s_reset AR T tltb teqb self_base ;;\n  Some %s.   (* inherited *)' % (base[1], mk(trb)))
     else:
-        out.append((PRE % (X, 'reset', X)) + ' : option (%s_state T) :=\n  None.   (* no reset(): the inherited one raises NotImplementedError *)' % X)
-    # ---- update
-    up = meths['update']; a = up.args
-    ps = [x.arg for x in a.args]
-    if ps[:1] != ['self'] or len(ps) not in (2, 3) or a.defaults or a.kwonlyargs or a.posonlyargs or len(set(ps)) != len(ps): fail(up, 'signature of update changed')
-    extra = [x.arg for x in (a.vararg, a.kwarg) if x is not None]
-    tr = Tr(up); tr.params = ps[1:]
-    tr.uses_isect = ('import', 'rtamt.semantics.stl.dense_time.online.intersection', 'intersect') in imports
-    for n in ast.walk(ast.Module(body=up.body, type_ignores=[])):
-        if isinstance(n, ast.Name) and n.id in extra: fail(n, 'use of %s in the body' % n.id)
-    env, pre = prologue(tr)
-    for p in ps[1:]: env[p] = Var('sig', False)
-    def fin_update(e2, i2, ret=None):
-        if ret is None: fail(up, 'update can end without return')
-        for f, ty, _ in fields:
-            if e2['self.' + f].ty != ty: fail(up, 'attribute %s changes type' % f)
-        return [i2 + 'Some (%s, %s)' % (mk(tr), ret)]
-    lines = pre + tr.block(list(up.body), env, fin_update, '  ', top=True)
-    out.append('(* %s:%d *)' % (rel.split('/')[-1], up.lineno))
-    out.append((PRE % (X, 'update', X)) + ' %s : option (%s_state T * psig T) :=\n' % (' '.join('(%s : psig T)' % tr.nm(p) for p in ps[1:]), X)
-               + '\n'.join(lines) + '.')
-    return X, len(ps) - 1, [f for f, _, _ in fields], '\n'.join(out) + '\n'
+        out.append((PRE % (X, 'reset', '', X)) + ' : option (%s_state T) :=\n  None.   (* no reset(): the inherited one raises NotImplementedError *)' % X)
+    # ---- update and the further translated methods
+    info = {}
+    for mname in ['update'] + list(more):
+        up = meths[mname]; a = up.args
+        rettype = more.get(mname, 'sig')
+        ps = [x.arg for x in a.args]
+        if ps[:1] != ['self'] or len(ps) not in (1, 2, 3) or a.defaults or a.kwonlyargs or a.posonlyargs or len(set(ps)) != len(ps): fail(up, 'signature of %s changed' % mname)
+        extra = [x.arg for x in (a.vararg, a.kwarg) if x is not None]
+        tr = newtr(up, mname); tr.params = ps[1:]; tr.star = extra; tr.rettype = rettype
+        passed = {id(n.value) for n in ast.walk(up) if isinstance(n, ast.Starred)} | {id(n.value) for n in ast.walk(up) if isinstance(n, ast.keyword) and n.arg is None}
+        for n in ast.walk(ast.Module(body=up.body, type_ignores=[])):
+            if isinstance(n, ast.Name) and n.id in extra and id(n) not in passed: fail(n, 'use of %s in the body' % n.id)
+        env, pre = prologue(tr)
+        for p in ps[1:]: env[p] = Var('sig', False)
+        def fin_update(e2, i2, ret=None):
+            if ret is None: fail(up, '%s can end without return' % mname)
+            for f, ty, _ in fields:
+                if e2['self.' + f].ty != ty: fail(up, 'attribute %s changes type' % f)
+            return [i2 + 'Some (%s, %s)' % (mk(tr), ret)]
+        lines = pre + tr.block(list(up.body), env, fin_update, '  ', top=True)
+        out.append('(* %s:%d *)' % (rel.split('/')[-1], up.lineno))
+        extra_ps = [q for q in EXTRA_ORDER if q in tr.uses]
+        out.append((PRE % (X, mname, ''.join(EXTRA[q] for q in extra_ps), X)) + ' %s : option (%s_state T * %s) :=\n'
+                   % (' '.join('(%s : psig T)' % tr.nm(p) for p in ps[1:]), X, COQTY[rettype]) + '\n'.join(lines) + '.')
+        info[mname] = (len(ps) - 1, extra_ps, rettype)
+    REG[rel[:-3].replace('/', '.')] = (X, cname, info['update'][0], info['update'][1], [INIT_PARAM_TYPES[q] for q in iparams], info)
+    return X, info['update'][0], [f for f, _, _ in fields], '\n'.join(out) + '\n'
+
+
+def check_owned(cl, f):
+    """the list object held by self.f is referred to by nobody else: in every method, self.f is only (re)bound to [], appended to, or
+    given a local name x = self.f that is in turn only indexed, measured, iterated, tested, appended to or deleted from"""
+    for m in cl.body:
+        if not isinstance(m, ast.FunctionDef): continue
+        parent = {}
+        for n in ast.walk(m):
+            for c in ast.iter_child_nodes(n): parent[c] = n
+        aliases = set()
+        for n in ast.walk(m):
+            if is_selfattr(n) and n.attr == f:
+                pa = parent[n]
+                if isinstance(pa, ast.Assign) and pa.targets == [n] and isinstance(pa.value, ast.List) and not pa.value.elts: continue
+                if isinstance(pa, ast.Assign) and pa.value is n and len(pa.targets) == 1 and isinstance(pa.targets[0], ast.Name):
+                    aliases.add(pa.targets[0].id); continue
+                if isinstance(pa, ast.Attribute) and pa.attr == 'append' and isinstance(parent[pa], ast.Call) and parent[pa].func is pa: continue
+                fail(n, 'self.%s is used in a way that may share its list' % f)
+        for n in ast.walk(m):
+            if isinstance(n, ast.Name) and n.id in aliases:
+                pa = parent[n]
+                if isinstance(pa, ast.Assign) and n in pa.targets and is_selfattr(pa.value) and pa.value.attr == f: continue
+                if isinstance(n.ctx, ast.Store): fail(n, '%s (another name of self.%s) is assigned again' % (n.id, f))
+                if isinstance(pa, ast.Subscript) and pa.value is n: continue
+                if isinstance(pa, ast.Call) and (is_name(pa.func, 'len') or is_name(pa.func, 'enumerate')) and pa.args == [n]: continue
+                if isinstance(pa, ast.Attribute) and pa.attr == 'append' and isinstance(parent[pa], ast.Call) and parent[pa].func is pa: continue
+                if isinstance(pa, ast.UnaryOp) and isinstance(pa.op, ast.Not): continue
+                if isinstance(pa, (ast.If, ast.While)) and pa.test is n: continue
+                fail(n, '%s (another name of self.%s) escapes' % (n.id, f))
 
 
 def main():
@@ -570,13 +885,21 @@ def main():
         mod = ast.parse(open(PATH).read(), PATH)
         if printing: print('PINNED', r, digest(mod))
         elif digest(mod) != d: fail(mod.body[0], 'the untranslated class file changed (digest %s)' % digest(mod))
+    for r, (ename, d, members) in ENUMS.items():          # the enumerations: the class text (members and their values) is pinned
+        PATH = root + '/' + r
+        if not os.path.exists(PATH): fail(None, 'enumeration file removed')
+        mod = ast.parse(open(PATH).read(), PATH)
+        cls = [x for x in mod.body if isinstance(x, ast.ClassDef) and x.name == ename]
+        if len(cls) != 1: fail(mod.body[0], 'enumeration %s not found' % ename)
+        if printing: print('ENUM', ename, digest(cls[0]))
+        elif digest(cls[0]) != d: fail(cls[0], 'the enumeration %s changed (digest %s)' % (ename, digest(cls[0])))
     meths = method_functions(root, printing)
     classes = [translate_class(root, r, c, printing) for r, c in TRANSLATED]
     text = ('(* GENERATED by tools/py2coq_denseonline.py from rtamt/semantics/{stl,arithmetic}/dense_time/online/*_operation.py and the\n'
             '   functions at the end of .../stl/dense_time/online/intersection.py — do not edit.\n'
             '   Per class: the state record of __init__, reset and update, built from the primitives of PySem.v / PyDense.v and the hand model\n'
             '   oisect_g of intersection(); None = the Python code raises. *)\n'
-            'From Coq Require Import List Bool Arith ZArith.\nFrom RV Require Import Val Syntax Rho Online Dense PySem PyDense DenseOnlineMerge.\n'
+            'From Coq Require Import List Bool Arith ZArith.\nFrom RV Require Import Val Syntax Rho Online IA Dense PySem PyDense DenseOnlineMerge.\n'
             'Import ListNotations.\nLocal Open Scope Z_scope.\n\n')
     text += '\n'.join(meths) + '\n' + '\n'.join(c[3] for c in classes)
     text += '\nDefinition gen_online_class_count : nat := %d%%nat.\n' % len(classes)
